@@ -1,4 +1,73 @@
 import FqModel.Proto
-/-! driver for C18 (stub — replaced by the property's own driver) -/
+/-! driver for C18
+
+  `trial seed=<n> <job>*`  TAB  `<tok>*`      a multiset of decode+display jobs run in one process
+  `procrep seed=0 <job>*`  TAB  `<tok>*`      the pool run sequentially in a second process
+      job  = path[@N]|format|opts|render                       (opaque here)
+      tok  = r:<k>:<hash>        reference: job number k of the line run ALONE in a fresh process
+           | rt:<k>:<hash>       reference decode-tree hash of job k (pkg/decode driven directly, same fresh process)
+           | hammer<G>:<k>:<hash> job k decoded many times by pkg/decode on G goroutines together with the
+                                 other jobs of the line: the tree hash, or the first differing one
+           | <mode>:<k>:<hash>   job k run in mode seq0..seq3 (the jobs one after the other, in four
+                                 orders), conc2|conc4|conc8|conc16 (concurrently on that many
+                                 goroutines), procrep
+      hash = first 8 bytes of SHA-256 of (stdout, 0, stderr, 0, error) in hex `/` length
+
+  The property predicate, evaluated on the implementation's observation: every job has exactly one
+  reference, there is at least one run per job, and EVERY run of job k has the hash of its reference.
+  (What the model predicts — FqModel/Isolation.lean, `interleaving_result_eq_alone` — is the same
+  statement: the result of a job under any schedule is its lone result; so there is no separate DIVERGE.)
+  Race reports are `!PROPFAIL` lines decided by the harness (the race detector is a runtime monitor).
+-/
 open FqModel.Proto
-def main : IO Unit := run (fun _ _ => "BADOP driver-stub")
+
+structure Tok where
+  mode : String
+  k : Nat
+  hash : String
+
+def parseTok (w : String) : Option Tok :=
+  match w.splitOn ":" with
+  | [m, k, h] =>
+    match k.toNat? with
+    | some k => if m.isEmpty || h.isEmpty then none else some ⟨m, k, h⟩
+    | none => none
+  | _ => none
+
+def isRef (t : Tok) : Bool := t.mode == "r" || t.mode == "rt"
+
+/-- which reference a run is compared with -/
+def refKind (t : Tok) : String := if t.mode.startsWith "hammer" then "rt" else "r"
+
+def lookupRef (refs : List Tok) (kind : String) (k : Nat) : Option String :=
+  (refs.find? (fun t => t.mode == kind && t.k == k)).map (·.hash)
+
+def stepC18 (op obs : String) : String :=
+  match words op with
+  | kind :: seed :: jobs =>
+    if kind != "trial" && kind != "procrep" then "BADOP op"
+    else if !seed.startsWith "seed=" then "BADOP seed"
+    else if jobs.isEmpty then "BADOP no-jobs"
+    else if jobs.any (fun j => (j.splitOn "|").length != 4) then "BADOP job"
+    else
+      match (words obs).mapM parseTok with
+      | none => "BADOP obs"
+      | some toks =>
+        let refs := toks.filter isRef
+        let runs := toks.filter (fun t => !isRef t)
+        let n := jobs.length
+        if (refs.filter (fun t => t.mode == "r")).length != n then s!"BADOP not one output reference per job"
+        else if (List.range n).any (fun k => (refs.filter (fun t => t.mode == "r" && t.k == k)).length != 1) then
+          "BADOP reference numbering"
+        else if (List.range n).any (fun k => (refs.filter (fun t => t.mode == "rt" && t.k == k)).length > 1) then
+          "BADOP tree reference numbering"
+        else if toks.any (fun t => t.k ≥ n) then "BADOP job number out of range"
+        else if (List.range n).any (fun k => !(runs.any (fun t => t.k == k))) then "BADOP a job was never run"
+        else
+          match runs.find? (fun t => lookupRef refs (refKind t) t.k != some t.hash) with
+          | some t =>
+            s!"PROPFAIL job#{t.k} {jobs.getD t.k "?"} in mode {t.mode} gave {t.hash}, alone it gives {(lookupRef refs (refKind t) t.k).getD "(no reference)"}"
+          | none => "OK"
+  | _ => "BADOP op"
+
+def main : IO Unit := run stepC18
